@@ -407,18 +407,17 @@ def fmt_roots(rs):
 
 
 def roots_mention(rs, pred):
-    """Does any root (recursively) satisfy pred(root)?"""
+    """Does any root (recursively, through argument sets) satisfy pred(root)?"""
     def walk(r):
-        if pred(r):
-            return True
+        if isinstance(r, (frozenset, set, list)):
+            return any(walk(y) for y in r)
         if isinstance(r, tuple):
-            for x in r[1:]:
-                if isinstance(x, (tuple, frozenset, set)):
-                    if isinstance(x, (frozenset, set)):
-                        if any(walk(y) for y in x):
-                            return True
-                    elif walk(x):
-                        return True
+            try:
+                if pred(r):
+                    return True
+            except Exception:
+                pass
+            return any(walk(x) for x in r if isinstance(x, (tuple, frozenset, set, list)))
         return False
     return any(walk(r) for r in rs)
 
